@@ -294,3 +294,71 @@ func (c01UintStringer) String() string { return c01Text }
 //
 //gosym:reach rendered
 func H_C01_escaperFollowsSet() { H_C10_twoSets() }
+
+// H_C01_nested (thorough): the action {{ x }} (or {{ x | raw }} / {{ x | safeHtml }}) inside
+// three nested constructs out of eight (if, else branch, range, block definition site,
+// content of a yield, try body, catch body, included file), each contributing literal text
+// with HTML-special bytes, under the three escaper configurations: literal text verbatim,
+// the value escaped exactly once by the Set's escaper, or by the SafeWriter alone when one
+// is the last command.
+//
+//gosym:reach rendered
+//gosym:thorough-only
+//gosym:opts maxpaths=600000 wall=1500
+func H_C01_nested() {
+	esc := ndChoice("esc", 3)
+	sw := ndChoice("writer", 3) // 0 none, 1 raw, 2 safeHtml
+	x := ndName("x", 2)
+	action := []string{`{{ x }}`, `{{ x | raw }}`, `{{ x | safeHtml }}`}[sw]
+	body, pre, post := action, "", ""
+	var files []string
+	for level := 0; level < 3; level++ {
+		k := ndChoice("w"+ndItoa(level), 8)
+		t := ndItoa(level)
+		switch k {
+		case 0:
+			body, pre, post = `<{{ if true }}'`+body+`'{{ end }}>`, "<'"+pre, post+"'>"
+		case 1:
+			body, pre, post = `{{ if false }}no{{ else }}"`+body+`"{{ end }}`, `"`+pre, post+`"`
+		case 2:
+			body, pre, post = `{{ range one }}&`+body+`&{{ end }}`, "&"+pre, post+"&"
+		case 3:
+			body, pre, post = `{{ block b`+t+`() }}<`+body+`>{{ end }}`, "<"+pre, post+">"
+		case 4:
+			body, pre, post = `{{ yield wrap() content }}'`+body+`'{{ end }}`, "['"+pre, post+"']"
+		case 5:
+			body, pre, post = `{{ try }}&`+body+`&{{ end }}`, "&"+pre, post+"&"
+		case 6:
+			body, pre, post = `{{ try }}{{ fail() }}{{ catch }}<`+body+`>{{ end }}`, "<"+pre, post+">"
+		default:
+			files = append(files, "/inc"+t+".jet", `"`+body+`"`)
+			body, pre, post = `{{ include "/inc`+t+`.jet" }}`, `"`+pre, post+`"`
+		}
+	}
+	files = append(files, "/lib.jet", `{{ block wrap() }}[{{ yield content }}]{{ end }}`, "/m.jet", `{{ import "/lib.jet" }}`+body)
+	set := hxSet(c01Opts(esc), files...)
+	vars := make(VarMap)
+	vars.Set("x", x)
+	vars.Set("one", []int{1})
+	vars.SetFunc("fail", hxFail)
+	out, err := hxExec(set, "/m.jet", vars, nil)
+	vfAssert(err == nil, "renders without error")
+	if err != nil {
+		return
+	}
+	vfReach("rendered")
+	var w string
+	switch sw {
+	case 0:
+		w = c01Want(esc, x)
+	case 1:
+		w = x
+	default:
+		w = string(refEsc([]byte(x)))
+		if x == "" {
+			w = ""
+		}
+	}
+	vfNote(out)
+	vfAssert(out == pre+w+post, "literal text verbatim; the value escaped exactly once, by the last SafeWriter if there is one")
+}
